@@ -91,8 +91,10 @@ class HookFile(io.BytesIO):
 
     def read(self, n=-1):
         pos = self.tell()
+        end = len(self.getbuffer()) if n is None or n < 0 else pos + n
         for off in sorted(self.hooks):
-            if off <= pos:
+            # the reader arrives at (or, reading a whole block, passes) the offset
+            if off <= pos or off < end:
                 self.hooks.pop(off)()
         return io.BytesIO.read(self, n)
 
